@@ -101,12 +101,115 @@ def check_c15(sim, faulty):
     return pr
 
 
+def check_retry_units(sim):
+    """A send that is retried after a communication failure (HID, exceptions off) starts its unit again from the
+    top: what one caller put on the wire inside its locked region is attempt_1 ++ ... ++ attempt_n, every attempt a
+    non-empty prefix of the caller's unit (EnableDeviceType first when the command needs a device type) and, when
+    the caller got a result, the last attempt the whole unit.  A retry that re-sends the bare command (or the prefix
+    alone) is not a prefix of the unit."""
+    pr = []
+    if not sim.is_hid:
+        return pr
+    drv = sim.kind
+    for c in sim.callers:
+        if not c.started or c.kind != "send":
+            continue
+        exp = expected_unit(sim, c)
+        mine = [(w[1], w[2], w[3]) for w in sim.wire if w[0] == c.tid]
+        if not exp or not mine:
+            continue
+        states = {0}
+        bad = None
+        for i, f in enumerate(mine):
+            new = {j + 1 for j in states if j < len(exp) and exp[j] == f}
+            if exp[0] == f and any(j >= 1 for j in states):
+                new.add(1)
+            if not new:
+                bad = i
+                break
+            states = new
+        whole = c.done and c.result[0] == "ok"
+        if bad is not None:
+            pr.append(("retry:" + drv,
+                       "caller %d: every (re)transmission starts its unit %s from the top" % (c.tid, _fr(exp)),
+                       "wrote %s: frame #%d %s does not continue or restart the unit" % (_fr(mine), bad, _fr([mine[bad]]))))
+        elif whole and len(exp) not in states:
+            pr.append(("retry:" + drv,
+                       "caller %d got a result, so its last transmission is the whole unit %s" % (c.tid, _fr(exp)),
+                       "wrote %s" % _fr(mine)))
+    return pr
+
+
+def _fr(frames):
+    return "[" + ", ".join("%d:%#x%s" % (f[0], f[1], "x2" if f[2] else "") for f in frames) + "]"
+
+
+def check_retried_results(sim):
+    """HID, nothing cancelled: a caller that gets a result gets the answer to ITS OWN command, also when the command
+    had to be retried after a loss (the bus model answers a device-type command only behind its EnableDeviceType)"""
+    pr = []
+    if not sim.is_hid or any(e[1] == "env" and e[2] in ("cancel", "drop") for e in sim.events):
+        return pr
+    from .sim import ANSWERS
+    for c in sim.callers:
+        if not c.done or c.result[0] != "ok":
+            continue
+        items = [it for it in c.items() if isinstance(it, str) and (c.tid, it) in sim.cmds]
+        got = [c.result[1]] if c.kind == "send" else list(c.result[1])
+        for it, r in zip(items, got):
+            if it not in ANSWERS:
+                continue
+            cmd = sim.cmds[(c.tid, it)]
+            want = "%s:%d" % (cmd.response.__name__, (ANSWERS[it] + c.tid) & 0xFF)
+            if r != want:
+                bare = [b for b in sim.bare_dt_frames if b[0] == c.tid]
+                pr.append(("result:" + sim.kind, "caller %d %s -> %s (its own command's answer)" % (c.tid, it, want),
+                           "%s%s" % (r, "; frames that reached the bus without EnableDeviceType: %s" % bare if bare else "")))
+    return pr
+
+
+def check_serial_deadline(sim):
+    """serial: from the moment a caller has the transaction lock, every command of it ends - confirmed, answered,
+    'no answer' or TimeoutError - within the documented timeouts (timeout_tx_confirm per transmission, timeout_rx for
+    the answer), whatever the gateway does or stops doing"""
+    pr = []
+    if sim.is_hid or sim.hang:
+        return pr
+    drv = sim.kind
+    t_conf, t_rx = sim.timeouts
+    for c in sim.callers:
+        if not c.done:
+            continue
+        acq = [e[0] for e in sim.events if e[1] == c.tid and e[2] == "acq"]
+        if not acq:
+            continue
+        allow = 0.0
+        for it in c.items():
+            if isinstance(it, tuple) and it[0] == "sleep":
+                allow += it[1]
+            cmd = sim.cmds.get((c.tid, it)) if isinstance(it, str) else None
+            if cmd is None:
+                continue
+            n = 2 if cmd.sendtwice else 1
+            allow += n * t_conf + (t_rx if cmd.response is not None else 0)
+            if cmd.devicetype != 0:
+                allow += t_conf
+        if c.t_done - acq[0] > allow + 1e-6:
+            pr.append(("timeout:" + drv, "caller %d done within %.3f s of getting the lock" % (c.tid, allow),
+                       "after %.3f s" % (c.t_done - acq[0])))
+    return pr
+
+
 def check_end(sim):
     pr = []
     drv = sim.kind
     if sim.hang:
-        pr.append(("hang:" + drv, "every caller completes",
-                   "callers %s never completed" % [c.tid for c in sim.callers if c.started and not c.done]))
+        stuck = getattr(sim, "unfinished", None)
+        if stuck is None:
+            stuck = [c.tid for c in sim.callers if c.started and not c.done]
+        pr.append(("hang:" + drv, "every caller completes (or fails) and the lock is free at the end",
+                   "callers %s never completed: no report, no timer and no other event is left that could wake them; "
+                   "end state %s" % (stuck, getattr(sim, "end_state", None))))
         return pr
     o = sim.end_state
     if sim.waiting:
@@ -272,7 +375,7 @@ def check_serial_timeouts(sim):
         return pr
     drv = sim.kind
     t_conf, t_rx = sim.timeouts
-    dropped = [e for e in sim.events if e[1] == "env" and e[2] == "drop"]
+    dropped = [e for e in sim.events if e[1] == "env" and e[2] in ("drop", "trunc")]
     if not dropped:
         return pr
     for c in sim.callers:
@@ -289,7 +392,7 @@ def check_serial_timeouts(sim):
 
 
 def check_all(sim):
-    faulty = sim.late or any(e[1] == "env" and e[2] in ("lose", "cancel", "drop") for e in sim.events)
+    faulty = sim.late or any(e[1] == "env" and e[2] in ("lose", "cancel", "drop", "trunc") for e in sim.events)
     pr = []
     pr += check_c15(sim, faulty)
     pr += check_end(sim)
@@ -299,4 +402,7 @@ def check_all(sim):
     pr += check_c17(sim)
     pr += check_inflight(sim)
     pr += check_serial_timeouts(sim)
+    pr += check_retry_units(sim)
+    pr += check_retried_results(sim)
+    pr += check_serial_deadline(sim)
     return pr
